@@ -346,7 +346,8 @@ func (r *Run) Finish() int {
 		violLines = append(violLines, fmt.Sprintf("VIOLATION property=%s replay=%s", r.Property, path))
 	}
 	exhaustive := r.Exhaustive && !r.capped.Load()
-	distinct := int64(len(ntKeys))
+	// Nontrivial is a plain counter for enumerations that never repeat a case (distinct by construction)
+	distinct := int64(len(ntKeys)) + nontriv
 	if distinct == 0 {
 		distinct = int64(len(outcomes))
 	}
